@@ -1,4 +1,4 @@
-"""C18 — sinc interpolation (DESIGN.md §6 C18): bounded index safety / priming / reset only."""
+"""C18 — sinc interpolation (DESIGN.md §6 C18): bounded index safety / priming / reset, and ratio-1 transparency under a tabulated libm contract."""
 from vlib.kani import run_kani
 
 
@@ -9,8 +9,14 @@ def run(ctx):
             'frames (each count its own harness), ring start offset 0, symbolic finite f64 mono frames with |v| <= 1; sin/cos stubbed by an '
             'arbitrary value in [-1,1]')
     ctx.bounded.append(note)
-    ctx.add_assumption('OUT OF REACH, NOT claimed: 1e-12 transparency at ratio 1, linearity within rounding, finiteness, 1 % constant '
-                       'reproduction — they depend on libm sin/cos values (Kani over-approximates them, Verus leaves them uninterpreted)')
+    ctx.bounded.append('BOUNDED: transparency at ratio exactly 1 (interpolate(0.0) after K fed frames == the frame fed depth frames earlier, '
+                       'silence while priming): i32 frames EXACTLY (every i32 history) and f64 frames within 1e-12 x peak (every finite '
+                       'history with |v| <= 1), depth 1 and 2 (3 in the thorough tier), K up to depth + 3')
+    ctx.add_assumption('ASSUMED CONTRACT ON libm for the transparency harnesses: at the only arguments reached when x == 0 (k*PI, k*PI/depth) '
+                       'sin / cos return the values tabulated in kani/sinc/src/lib.rs (glibc values: |sin(fl(k PI))| < 4e-16, cos(fl(PI)) == -1, ...); '
+                       'at any other argument the stub returns an arbitrary value in [-1, 1]')
+    ctx.add_assumption('OUT OF REACH, NOT claimed: linearity within rounding, finiteness, 1 % constant reproduction, and transparency for '
+                       'depth > 3 — they depend on libm sin/cos values at arbitrary arguments (Kani over-approximates them, Verus leaves them uninterpreted)')
     ctx.add_assumption('hooks Sinc::verif_idx / verif_frames (cfg rustaudio_dasp_verif) expose the private state read-only')
     hs = ['c18_b_', 'c18_new_'] + (['c18_t_'] if ctx.tier == 'thorough' else [])
     run_kani(ctx, 'sinc', harness=hs, rustflags='--cfg rustaudio_dasp_verif', harness_timeout='15m', bounded_note=note)
